@@ -109,3 +109,42 @@ Proof.
   intros d g H. destruct (unew_graph_inv d g H) as (pm & vis & pi & Hpm & Hret & H0 & I & Q). exists pm, pi. repeat split; auto.
   apply (Bfs.prov_unique _ _ _ _ _ I).
 Qed.
+
+(* ---------------- every node of the graph is needed for the requested type ---------------- *)
+From Coq Require Import Relations.
+(* a feeds c: some parameter of c is resolved to a *)
+Definition feeds (g : ugraph) (a c : nat) : Prop := exists i, c < nn g /\ i < unreq g c /\ usrc g c i = a.
+Lemma posn_le x l : posn x l <= length l.
+Proof. induction l as [|y r IH]; simpl; auto. destruct (Nat.eqb x y); lia. Qed.
+
+Theorem all_nodes_needed : forall d g, unew_graph d = OK g -> forall n, n < nn g -> clos_refl_trans nat (feeds g) n 0.
+Proof.
+  intros d g H. pose proof H as H'. unfold unew_graph in H'.
+  destruct (Gen.pass1 [] 0 (Gen.d_provs d)) as [pm1|e] eqn:P1; [|discriminate].
+  destruct (Gen.pass2 pm1 (Gen.d_provs d) (filter Gen.isstruct (Gen.d_provs d))) as [[pm provs]|e] eqn:P2; [|discriminate].
+  destruct (Gen.assoc (Gen.d_ret d) pm) as [[pi gi]|] eqn:Er; [|discriminate].
+  set (req := fun pi0 => match nth_error provs pi0 with Some p => Gen.requires p | None => [] end) in *.
+  set (b0 := {| Bfs.nodes := [Bfs.NProv pi]; red := fun _ => []; out := fun _ => []; pn := []; an := []; queue := [0] |}) in *.
+  destruct (Bfs.loop req (pm_of pm) (2 + 2 * (length provs + fold_right (fun p a => length (Gen.requires p) + a) 0 provs)) b0 []) as [[b vis]|] eqn:L; [|discriminate].
+  destruct (Dfs.dfs_all (fun m => map fst (Bfs.out b m)) (S (length (Bfs.nodes b))) (seq 0 (length (Bfs.nodes b))) (fun _ => White) []) as [[c' fin']|] eqn:D; [|discriminate].
+  inversion H'; subst g. clear H'.
+  destruct (unew_graph_inv d _ H) as (pm2 & vis2 & pi2 & _ & _ & _ & I & Q). cbn [ub uprovs] in I, Q.
+  assert (HO : Bfs.hasout b).
+  { eapply (Bfs.loop_hasout req (pm_of pm)); [|exact L]. intros n Hn Hl. simpl in Hl. lia. }
+  set (g := {| ub := b; uprovs := provs; uret := gi |}) in *.
+  assert (OS : forall n c i, In (c, i) (uouts g n) <-> c < nn g /\ i < unreq g c /\ usrc g c i = n) by (intros; apply (Bfs.outs_src _ _ _ b vis2 I)).
+  assert (AC : forall c i, c < nn g -> i < unreq g c -> posn (usrc g c i) fin' < posn c fin').
+  { intros c i Hc Hi. apply (Dfs.acyclic_rank _ _ _ _ _ D); [apply (Bfs.src_lt _ _ _ b vis2 I); auto|]. apply in_map_iff. exists (c, i). split; auto. apply OS. auto. }
+  assert (G : forall k n, length fin' - posn n fin' <= k -> n < nn g -> clos_refl_trans nat (feeds g) n 0).
+  { induction k as [|k IH]; intros n Hk Hn.
+    - destruct (Nat.eq_dec n 0) as [->|Hne]; [apply rt_refl|]. exfalso.
+      assert (Ho : Bfs.out b n <> []) by (apply HO; [lia | exact Hn]).
+      destruct (Bfs.out b n) as [|[c i] r] eqn:E; [contradiction|]. assert (Hin : In (c, i) (uouts g n)) by (unfold uouts; change (GenU.b g) with b; rewrite E; left; auto).
+      apply OS in Hin. destruct Hin as (Hc & Hi & Hs). pose proof (AC c i Hc Hi) as A. rewrite Hs in A. pose proof (posn_le c fin'). lia.
+    - destruct (Nat.eq_dec n 0) as [->|Hne]; [apply rt_refl|].
+      assert (Ho : Bfs.out b n <> []) by (apply HO; [lia | exact Hn]).
+      destruct (Bfs.out b n) as [|[c i] r] eqn:E; [contradiction|]. assert (Hin : In (c, i) (uouts g n)) by (unfold uouts; change (GenU.b g) with b; rewrite E; left; auto).
+      apply OS in Hin. destruct Hin as (Hc & Hi & Hs). pose proof (AC c i Hc Hi) as A. rewrite Hs in A.
+      apply rt_trans with c; [apply rt_step; exists i; auto | apply IH; auto; lia]. }
+  intros n Hn. apply (G (length fin') n); auto. lia.
+Qed.
